@@ -352,6 +352,23 @@ CHECK_DEADLOCK FALSE
             ctx.replayed += 1
             if r:
                 ctx.violation('meta/' + r[0], {'row': ['ill', t, attr, x]}, r[1])
+    # the same text under different charsets in one process (payload = text.encode(charset))
+    from mido.midifiles.meta import meta_charset
+    for text, charsets in (('caf\xe9', ['latin1', 'utf-8', 'cp1252', 'latin1']), ('日本', ['utf-8', 'shift_jis', 'utf-8'])):
+        for cs in charsets:
+            ctx.replayed += 1
+            try:
+                with meta_charset(cs):
+                    msg = __import__('mido').MetaMessage('marker', text=text)
+                    b = msg.bytes()
+                    back = __import__('mido').MetaMessage.from_bytes(list(b))
+                pay = list(text.encode(cs))
+                if list(b)[:2] != [0xff, 6] or list(b)[-len(pay):] != pay or not (back == msg):
+                    ctx.violation('meta/charset-payload/%s' % cs, {'row': ['cs', text, cs]},
+                                  'marker %r under charset %s encodes to %r, decodes to %r' % (text, cs, list(b), back))
+            except Exception as e:
+                ctx.violation('meta/charset-payload/%s' % cs, {'row': ['cs', text, cs]},
+                              'marker %r under charset %s raised %r' % (text, cs, e))
     # payloads up to the reader's one-million-byte limit
     for nbytes in ([999999, 1000000] if thorough else [1000000]):
         r = check_big(nbytes, vlq[nbytes])
